@@ -2,7 +2,7 @@
    ExtrOcamlBasic only; no Extract Constant / Extract Inductive of our own. *)
 From Coq Require Import ExtrOcamlBasic.
 From SV Require Import Lib.Bytes Lib.ExtractBase Model.Addr Gen.Consts.
-Extraction "c05_model.ml" extract_anchor sockaddr_in sockaddr_in6 original_dst recv_udp_dst
+Extraction "c05_model.ml" extract_anchor sockaddr_in sockaddr_in6 original_dst recv_udp_dst recv_udp_kernel cmsg_space
   fmt4 fmt6 fmt6_ntop parse4 parse6 py_int dec hex connect_payload new_channel udp_frame udp_req
   pf_request helper_step firewall_command pf_reply_decode pf_get_tcp_dstip onaccept_tcp
   e2e_nat e2e_text e2e_udp readline_lim readline_limit_code.
